@@ -558,6 +558,10 @@ class World(object):
             c.connect_step = self.step
             c.connect_time = self.clock.rightNow
 
+    def ev_badconnect(self, a, clean=True):
+        """connect() with an invalid argument (keepalive 70000): refused, nothing written, the protocol stays as it was."""
+        self.ev_connect(a, bool(clean), 70000, 4)
+
     def ev_reconn2(self, a, clean=True, ka=0, ver=4):
         """connect() called again on a protocol object that already went through a handshake."""
         self.ev_connect(a, clean, ka, ver)
